@@ -5,6 +5,15 @@ import ast
 from .pyir import AnalysisError, unparse
 
 
+def _is_clock(n):
+    if not isinstance(n, ast.Call) or n.args or n.keywords:
+        return False
+    name = unparse(n.func)
+    last = name.split('.')[-1]
+    from .pyir import CLOCK_ALIASES
+    return 'onotonic' in last or last == 'time' or name in CLOCK_ALIASES
+
+
 def _single_return_expr(func):
     rets = [n for n in ast.walk(func.node) if isinstance(n, ast.Return) and n.value is not None]
     if len(rets) != 1:
@@ -259,8 +268,7 @@ class Roles(object):
         hh = self.__dict__.get('handler')
         if hh is not None:
             for acc in P.accesses(hh):
-                if acc.kind == 'elem_write' and isinstance(acc.node, ast.Assign) and isinstance(acc.node.value, ast.Call) \
-                        and isinstance(acc.node.value.func, ast.Name) and 'onotonic' in acc.node.value.func.id:
+                if acc.kind == 'elem_write' and isinstance(acc.node, ast.Assign) and _is_clock(acc.node.value):
                     self.lastResponseTime = acc.attr
         if self.lastResponseTime is None:
             raise AnalysisError('role lastResponseTime: no comparison against conf.leaderFallbackTimeout in SyncObj')
@@ -329,7 +337,7 @@ class Roles(object):
                 l, r = n.left, n.comparators[0]
                 for x, y in ((l, r), (r, l)):
                     a = P.self_attr(x, tick.self_name)
-                    if a and isinstance(y, ast.Call) and isinstance(y.func, ast.Name) and 'onotonic' in y.func.id:
+                    if a and _is_clock(y):
                         clock_cmp.append(a)
         written_in_handler = set(acc.attr for acc in P.accesses(h) if acc.kind == 'write')
         for a in clock_cmp:
